@@ -266,6 +266,12 @@ fn get_match_statically_known(
     provider.query_variable = &query_variable;
     provider.query_function = &asm::resolver::get_statically_known_builtin_fn;
 
+    // Arguments are evaluated in the scope of the instruction,
+    // where the rule's parameters are not visible
+    let mut arg_provider = expr::StaticallyKnownProvider::new();
+    arg_provider.query_variable = &query_variable;
+    arg_provider.query_function = &asm::resolver::get_statically_known_builtin_fn;
+
     for i in 0..rule.parameters.len()
     {
         let param = &rule.parameters[i];
@@ -281,7 +287,7 @@ fn get_match_statically_known(
                 if let InstructionArgumentKind::Expr(ref arg_expr) = arg.kind
                 {
                     let value_known =
-                        arg_expr.is_value_statically_known(&provider);
+                        arg_expr.is_value_statically_known(&arg_provider);
 
                     provider.locals.insert(
                         param.name.clone(),
